@@ -29,7 +29,7 @@ zcard = z3.Function("zcard", ArrIB, I, I)
 
 FIELD_TYPES.update({
     ("Zipper", "fs"): ("list", "any"),
-    ("Zipper", "out"): INST("Future"),
+    ("Zipper", "out"): INST("OutputFuture"),
     ("Zipper", "done"): "bool",
     ("Zipper", "lock"): "lock",
     ("Zipper", "count_remaining"): "int",
@@ -72,6 +72,11 @@ def _cfg():
     cfg.protected.update({"fs": "lock", "done": "lock", "count_remaining": "lock", "$zfilled": "lock", "$zres": "lock"})
     cfg.stable |= {"out", "$zn"}
     cfg.region_inv[("Zipper", "lock")] = zip_inv
+    # the output is a library future: its state changes only under its own _me_lock; dispatch of its callbacks
+    # is under the contract of _Future._me_invoke_callbacks (contracts/c_future.py)
+    cfg.protected.update({"$fstate": "_me_lock", "$fresult": "_me_lock", "$fexc": "_me_lock", "_me_done_callbacks": "_me_lock"})
+    from .base import RecordCall as _RC
+    cfg.contracts["more_executors._impl.common._Future._me_invoke_callbacks"] = _RC()
     cfg.lock_kinds[("Zipper", "lock")] = "Lock"
 
     def on_count_write(engine, st, fr, o, v):
@@ -140,7 +145,7 @@ def _setup_handle_done(engine, st):
     fid = Val.id(f.t)
     index = Z(fresh("index", I), "int")
     n = st.get("$zn", sid)
-    out = engine.typed(st, st.get("out", sid), INST("Future"))
+    out = engine.typed(st, st.get("out", sid), INST("OutputFuture"))
     oid = Val.id(out.t)
     engine.touch_future(st, oid)
     st.assume(z3.And(index.t >= 0, index.t < n))
